@@ -166,6 +166,28 @@ func GenC07(seed uint64) *Scenario {
 		ops = append(ops, Op{ID: g.id(), Kind: "ccr", D: d})
 	}
 	g.sc.Tasks = []Task{{ID: 0, Ops: ops}}
+	if len(keys) > 1 && g.r.Chance(300) {
+		g.sc.Cfg.Concurrent = true
+		if g.sc.Cfg.DBDelayMaxNs == 0 {
+			g.sc.Cfg.DBDelayMaxNs = []int64{1_000_000, 20_000_000}[g.r.Intn(2)]
+		}
+		// one peer per account: requests for different accounts overlap, requests for one
+		// account stay sequential (as the CHF's per-subscriber lock guarantees)
+		idx := map[string]int{}
+		var tasks []Task
+		for _, op := range ops {
+			k := fmt.Sprintf("%s|%d", op.D.SubData, op.D.RG)
+			ti, ok := idx[k]
+			if !ok {
+				ti = len(tasks)
+				idx[k] = ti
+				tasks = append(tasks, Task{ID: ti, StartNs: g.r.Range(0, 2_000_000)})
+			}
+			tasks[ti].Ops = append(tasks[ti].Ops, op)
+		}
+		g.sc.Tasks = tasks
+		g.sc.Shape += fmt.Sprintf(" peers=%d", len(tasks))
+	}
 	return g.sc
 }
 
@@ -198,7 +220,8 @@ func CheckC07(h *History) []Violation {
 		known = known && d.SubType == 1
 		name := ccrName(d)
 		if !known {
-			if r.PreDB != r.PostDB {
+			if r.PreDB != r.PostDB && !h.Scenario.Cfg.Concurrent { // with concurrent peers the store legitimately changes meanwhile; stray effects then show in the other accounts' balance checks and in the final comparison
+
 				v.add("C07", "unknown-key-effect", "", o.Op.ID, "CCR op %d for unknown subscriber/rating group (%s rg %d) changed stored data:\n%s", o.Op.ID, d.SubData, d.RG, snapDiff(r.PreDB, r.PostDB))
 				return v.list
 			}
@@ -271,6 +294,13 @@ func CheckC07(h *History) []Violation {
 			bal.SetInt64(r.PostBal)
 		}
 	}
+	// at the end every stored balance equals the reference model
+	for _, st := range h.Final {
+		if m, ok := model[acctKey(st.Supi, st.RG)]; ok && st.HasQuota && (!m.IsInt64() || m.Int64() != st.Quota) {
+			v.add("C07", "final-balance", "", -1, "after all requests the stored balance of %s rg %d is %d, the reference model says %s", st.Supi, st.RG, st.Quota, m)
+			break
+		}
+	}
 	return v.list
 }
 
@@ -341,6 +371,24 @@ func GenC08(seed uint64) *Scenario {
 	ops = append(ops, Op{ID: g.id(), Kind: "sur", Role: "health", D: &DiamOp{Conn: 0, SessionID: "9", SubType: 1, SubData: "208930000000001", RG: 1, RateSubType: 2, Consumed: 3}},
 		Op{ID: g.id(), Kind: "sur", Role: "health", D: &DiamOp{Conn: 7, SessionID: "9", SubType: 1, SubData: "208930000000001", RG: 1, RateSubType: 1, MonetaryQuota: 1000}})
 	g.sc.Tasks = []Task{{ID: 0, Ops: ops}}
+	if g.r.Chance(350) {
+		// several peers on their own connections at the same time; with a slow tariff lookup
+		// their requests overlap inside the server
+		g.sc.Cfg.Concurrent = true
+		if g.sc.Cfg.DBDelayMaxNs == 0 {
+			g.sc.Cfg.DBDelayMaxNs = []int64{1_000_000, 20_000_000}[g.r.Intn(2)]
+		}
+		nPeers := 2 + g.r.Intn(3)
+		var tasks []Task
+		for t := 0; t < nPeers; t++ {
+			tasks = append(tasks, Task{ID: t, StartNs: g.r.Range(0, 2_000_000)})
+		}
+		for i, op := range ops {
+			tasks[i%nPeers].Ops = append(tasks[i%nPeers].Ops, op)
+		}
+		g.sc.Tasks = tasks
+		g.sc.Shape += fmt.Sprintf(" peers=%d", nPeers)
+	}
 	return g.sc
 }
 
